@@ -32,7 +32,7 @@ ASSUMPTIONS = ['solo runs use private deep copies of the data', 'NaN outputs com
 REAL = common.REAL_ALL
 STUBS = common.STUBS_ALL
 PROBES = ['batch_boundary_sample_resent', 'shared_data_objects', 're_evaluate', 'bounded_future_on_short_trace', 'hashseed_leg', 'online_and_offline_cohosted',
-          'dense_and_discrete_cohosted']
+          'dense_and_discrete_cohosted', 'read_only_columns_rejected']
 INTERLEAVING_MEASURE = 'distinct sequences of (object index, operation) in the schedule'
 
 
@@ -72,6 +72,8 @@ def gen(rng, tier):
     share = rng.random() < 0.7
     return {'vars': vars_, 'n': n, 'data': data, 'signals': signals, 'mons': mons, 'schedule': tokens, 'share': share,
             'dup_boundary': rng.random() < 0.4,
+            # the recorded columns are tuples and the time column a range (read-only sequences) instead of lists
+            'tuple_columns': rng.random() < 0.2,
             # recorded signals that end with an explicit "holds forever" sample [inf, last value] (dense offline objects)
             'inf_tail': [v for v in vars_ if rng.random() < 0.6] if rng.random() < 0.2 else [],
             'hashseeds': [1, 2, 31337] if rng.random() < 0.025 else []}
@@ -92,6 +94,8 @@ def _ids(o, depth=0):
 
 
 def eqv(a, b):
+    if a is None or b is None:
+        return a is b
     if isinstance(a, (list, tuple)) and isinstance(b, (list, tuple)):
         return len(a) == len(b) and all(eqv(x, y) for x, y in zip(a, b))
     if isinstance(a, (list, tuple)) or isinstance(b, (list, tuple)):
@@ -121,7 +125,15 @@ class Host(object):
     def call(self, fn, *args):
         before = copy.deepcopy(args)
         ids = _ids(args)
-        out = fn(*args)
+        try:
+            out = fn(*args)
+        except M.ApiCrash:
+            if not (self.sc.get('tuple_columns') and not self.dense):
+                raise
+            # only lists are documented as columns: a read-only sequence may be rejected - but never modified or replaced
+            out = None
+            self.dead = True
+            self.r.probes['read_only_columns_rejected'] += 1
         self.r.api_calls += 1
         if self.check_purity:
             self.r.evals += 1
@@ -134,6 +146,8 @@ class Host(object):
 
     def op(self):
         vars_ = self.sc['vars']
+        if getattr(self, 'dead', False):
+            return
         if self.mo['mode'] == 'off':
             if self.dense:
                 args = [[v, self.signals[v]] for v in vars_]
@@ -166,6 +180,10 @@ def execute(sc, shared, r, check_purity):
     """returns list of outputs per monitor"""
     base = dict(sc['data'])
     base['time'] = list(range(sc['n']))
+    if sc.get('tuple_columns'):
+        base = dict((k, tuple(base[k])) for k in base)
+        base['time'] = range(sc['n'])
+        r.faults['read_only_columns'] += 1
     if shared:
         datas = [base] * len(sc['mons'])
         sigs = [sc['signals']] * len(sc['mons'])
@@ -270,6 +288,10 @@ def shrinks(sc):
     if sc.get('inf_tail'):
         c = copy.deepcopy(sc)
         c['inf_tail'] = []
+        yield c
+    if sc.get('tuple_columns'):
+        c = copy.deepcopy(sc)
+        c['tuple_columns'] = False
         yield c
     if k > 1:
         for j in range(k):
